@@ -207,6 +207,8 @@ class Env:
         # None | "all" | "nocircuit": vary the python types of raised exceptions (incl. library
         # exception types), of abort requests (the public alias) and of results (falsy ones)
         self.flavours: str | None = None
+        self.single_sink: str | None = None   # "log": on_log is the only observability hook configured
+        self.ccache: dict = {}        # Classification objects handed out (the same object per class and hint)
         self.none_pending = None      # the scripted result object that the operation returned as None
         self.none_result = None       # ... while it describes the latest classified failure
 
@@ -313,9 +315,12 @@ class Env:
             hint = ra * vtime.TICK
             if self.flavours and hint == int(hint):
                 hint = int(hint)
+            if self.flavours:      # a table lookup returns the very same object every time
+                return self.ccache.setdefault((k, hint), Classification(klass=self._ec(k), retry_after_s=hint))
             return Classification(klass=self._ec(k), retry_after_s=hint)
         if self.flavours and self.ninv % 2 == 0:
-            return Classification(klass=self._ec(k))       # instead of the bare ErrorClass
+            # instead of the bare ErrorClass
+            return self.ccache.setdefault((k, None), Classification(klass=self._ec(k)))
         return self._ec(k)
 
     def classifier(self, exc: BaseException):
@@ -534,6 +539,13 @@ class Env:
     def _sink(self, kind: str, rec: dict) -> None:
         """Record one sink call.  A metric record and a log record that are adjacent (in either
         order) and identical are one `emit`: both sinks received the same event."""
+        if getattr(self, "single_sink", None):
+            # only this sink is configured: every record is the emission
+            rec["e"] = "emit"
+            rec["dur"] = (self._next("emit") or {}).get("dur", 0)
+            self.trace.append(rec)
+            self.clock.advance(rec["dur"])
+            return
         other = "log" if kind == "metric" else "metric"
         prev = self.trace[-1] if self.trace else None
         if prev is not None and prev["e"] == other and all(prev[x] == rec[x] for x in self._CMP) \
@@ -689,7 +701,7 @@ def retry_kwargs(env: Env, cfg: dict, *, place: str = "call", atimeout: bool = F
     if atimeout:
         ctor["attempt_timeout_s"] = 500.0        # never fires: operations finish at once
     call: dict[str, Any] = dict(
-        on_metric=env.on_metric, on_log=env.on_log,
+        on_metric=None if getattr(env, "single_sink", None) == "log" else env.on_metric, on_log=env.on_log,
         operation="op" if cfg["opname"] else None,
         abort_if=env.abort_if if cfg["abort"] else None,
     )
@@ -838,7 +850,8 @@ def run_scenario(cfg: dict, events: list[dict], *, entry: str, perm=None, place:
                  wall: str = "jump", site_fault: dict | None = None, hooks: bool = False,
                  force_mode: str | None = None, timeline: bool = False, atimeout: bool = False,
                  loop: bool = False, breaker_cfg: dict | None = None,
-                 flavours: str | None = None, entry2: str | None = None) -> list[dict]:
+                 flavours: str | None = None, entry2: str | None = None,
+                 sinks: str | None = None) -> list[dict]:
     """Execute the scenario through one entry point of the real library; returns the observed
     event list (same vocabulary as M's behaviours)."""
     is_async = entry.startswith(("Async", "async"))
@@ -846,6 +859,7 @@ def run_scenario(cfg: dict, events: list[dict], *, entry: str, perm=None, place:
               hook_fault=hook_fault, wall=wall)
     env.site_fault = site_fault
     env.flavours = flavours
+    env.single_sink = sinks
     ctor, call = retry_kwargs(env, cfg, place=place, atimeout=atimeout)
     if hooks:
         call.update(on_attempt_start=env.astart, on_attempt_end=env.aend)
